@@ -144,7 +144,8 @@ def load_known(prop_id):
         return []
     with open(KNOWN_FILE) as f:
         data = json.load(f)
-    return [e for e in data.get("findings", []) if e.get("property") == prop_id]
+    return [e for e in data.get("findings", [])
+            if e.get("property") == prop_id or prop_id in (e.get("properties") or [])]
 
 
 def entry_signatures(e):
